@@ -1,6 +1,7 @@
 """worker process: runs the cases of one shard through the property's run_case and writes one JSON line per case"""
 import json
 import sys
+import time
 import traceback
 import warnings
 
@@ -17,11 +18,13 @@ def main():
     items = json.load(open(fin))
     with open(fout, "w") as out:
         for i, case in items:
+            t0 = time.time()
             try:
                 r = M.run_case(case)
             except BaseException:  # harness bug: never a verdict on PyXAB
                 r = {"harness": traceback.format_exc()[-1500:]}
             r["i"] = i
+            r["_secs"] = round(time.time() - t0, 2)
             out.write(json.dumps(C.jsonable(r)) + "\n")
             out.flush()
 
